@@ -78,3 +78,54 @@ def validate_multi(ctx, module, trace_path, reset_ev="new", cfg=None, timeout=90
         base += nxt
         cur = cur[nxt:]
     return total, rejects
+
+
+_LAWS = re.compile(r'"LAW_VIOLATIONS",\s*(\{.*?\})\s*>>', re.S)
+
+
+def law_violations(ctx, module, trace_path, reset_ev="case", chunk=400000, parallel=4, heap="4g", timeout=2400,
+                   cfg=None):
+    """Judge a log with one of the law-collecting trace specs (the ones that print <<"LAW_VIOLATIONS", viol>>).
+
+    The log is a concatenation of independent cases, each opened by a `reset_ev` event; it is cut at case
+    boundaries into chunks of at most `chunk` lines (a single TLC run keeps every state of the one behaviour it
+    follows, so a log of several million lines does not fit one JVM), the chunks are validated by up to
+    `parallel` TLC processes at a time, and the positions reported by each are translated back to positions in
+    the whole log.  Returns ([(position (1-based), law)], distinct_states, generated_states).
+    Raises Infra when any chunk is not consumed to its end or reports no verdict."""
+    from concurrent.futures import ThreadPoolExecutor
+    with open(trace_path) as f:
+        lines = [x for x in f if x.strip()]
+    # chunk boundaries at reset events
+    starts = [0]
+    last_reset = 0
+    for i, ln in enumerate(lines):
+        if ('"ev":"%s"' % reset_ev) in ln or ('"ev": "%s"' % reset_ev) in ln:
+            if i - starts[-1] >= chunk and last_reset > starts[-1]:
+                starts.append(last_reset)
+            last_reset = i
+            if i - starts[-1] >= chunk and i > starts[-1]:
+                starts.append(i)
+    bounds = list(zip(starts, starts[1:] + [len(lines)]))
+
+    def one(b):
+        a, z = b
+        p = os.path.join(ctx.scratch, "chunk-%s-%d.ndjson" % (module, a))
+        with open(p, "w") as f:
+            f.writelines(lines[a:z])
+        accepted, consumed, total, res = validate(ctx, module, p, cfg=cfg, heap=heap, timeout=timeout)
+        os.remove(p)
+        if not accepted:
+            raise Infra("%s did not consume the whole log chunk at line %d (%s of %s)\n%s" % (module, a, consumed, total, (res.stdout or "")[-1500:]))
+        mm = _LAWS.search(res.stdout)
+        if not mm:
+            raise Infra("%s reported no verdict for the log chunk at line %d" % (module, a))
+        v = [(int(x) + a, y) for x, y in re.findall(r'<<\s*(\d+),\s*"(\w+)"\s*>>', mm.group(1))]
+        return v, res.distinct, res.generated
+    viols, distinct, generated = [], 0, 0
+    with ThreadPoolExecutor(max_workers=max(1, parallel)) as ex:
+        for v, d, g in ex.map(one, bounds):
+            viols += v
+            distinct += d
+            generated += g
+    return sorted(viols), distinct, generated
